@@ -361,6 +361,21 @@ let eval (op : string) (a : string list) : string =
       Printf.sprintf "own=%s acct=%s serve=%s" (b (mon_batch_own res))
         (b (mon_batch_acct cc (z_of_hex (get "unread" m)) closed)) (b (mon_batch_serve cc closed res))
     end
+  | "poolx", _ ->
+    let m = kv a in
+    if get "res" m = "" then "own=BAD ok=BAD" else begin
+      let res = List.map nat (ints_of (get "res" m)) in
+      let b v = if v then "ok" else "BAD" in
+      Printf.sprintf "own=%s ok=%s" (b (mon_batch_own res)) (b (mon_all_served res))
+    end
+  | "trtail", _ ->
+    let m = kv a in
+    let res = List.map nat (ints_of (get "res" m)) in
+    let items s = if s = "." || s = "" then [] else String.split_on_char ',' s in
+    let reqs = List.map (fun x -> match String.split_on_char ':' x with
+        | [c; i; _] -> { jq_conn = nat (hexi c); jq_id = z_of_hex i; jq_call = None } | _ -> failwith "req item") (items (get "req" m)) in
+    let b v = if v then "ok" else "BAD" in
+    Printf.sprintf "own=%s serve=%s ids=%s" (b (mon_batch_own res)) (b (mon_all_served res)) (b (mon_ids reqs))
   | "trmeta", _ ->
     let m = kv a in
     if mon_recover (get "meta" m = "1") (get "write" m = "1") (nat (hexi (get "count" m))) then "recover=ok" else "recover=BAD"
